@@ -93,7 +93,9 @@ def coq_labels(lbls):
 
 def coq_case(job, res):
     ww = job['w'].bit_length() - 1
-    prog = dt.stmts_to_coq(dt.main_ops(res['tree']), ';\n  ')
+    # the program's AST: the parser's own tree, except for the harness-owned expression trees (job['ast']), whose
+    # expected words are thereby computed from the harness's tree by the spec and not from a re-parse
+    prog = dt.stmts_to_coq(job.get('ast') or dt.main_ops(res['tree']), ';\n  ')
     if 'ok' in res:
         o = res['ok']
         obs = f'ObsOk {fw.npairs(o["segments"])} {fw.npairs(o["words"])} {coq_labels(o["labels"])}'
@@ -155,6 +157,9 @@ def replay_of(job, res, extra=None):
     r = {'src': job['src'], 'w': job['w'], 'version': job['version'],
          'observed': res.get('ok') or res.get('error'),
          'how': 'write src to f1.fj; fj --asm --no_stl -w W -v VERSION f1.fj -o out.fjm (or ./check C02 --replay <this file>)'}
+    if job.get('ast'):
+        r['ast'] = job['ast']      # harness-owned expression trees: the expected words come from THIS tree, not from a re-parse
+        r['how'] += '; the expected jump words are the values of the expression trees in "ast" (printed into src with minimal parentheses)'
     if extra:
         r.update(extra)
     return r
@@ -305,7 +310,7 @@ def replay(ctx, path):
         print(f'[C02] replay file names a theorem/correspondence, not an input: {rp.get("theorem_or_correspondence")}')
         print(rp.get('detail', '')[-2000:])
         return 1
-    job = {'src': rp['src'], 'w': rp['w'], 'version': rp['version']}
+    job = {'src': rp['src'], 'w': rp['w'], 'version': rp['version'], 'ast': rp.get('ast')}
     res = run_jobs(ctx, [job])[0]
     print(f'[C02] replaying w={job["w"]} version={job["version"]} against {fw.REPO}\n{job["src"]}')
     print('observed:', json.dumps(res.get('ok') or res.get('error') or res.get('parse_error'))[:1500])
